@@ -506,6 +506,14 @@ class Sym:
                                    vers=tuple(st.ver.get(a, 0) for a in args), ncond=len(st.conds))
                         self._inline_call(body, t, st, out, depth, cal[1], [cal[2]] + list(tup[4]), ev, uid)
                         return
+                if fn and short in self.INTERNAL_ITERATION and (name.endswith("Iterator::" + short) or name.endswith("Iterator>::" + short)) and self.expand_combinators and \
+                        len(args) == (3 if short == "fold" else 2) and depth < self.inline_depth + 1:
+                    c0 = args[-1]
+                    cal = self._callable(c0) if (c0[0] == "agg" and c0[1] == "closure") else None
+                    if cal is not None and cal[0] == "closure" and cal[1].path != fnpath:
+                        self._iterate(body, bb, t, st, out, depth, short, args[0], args[1] if short == "fold" else None, cal, name, fn,
+                                      args, uid, 0)
+                        return
                 comb = self._combinator(name, short, args) if (fn and self.expand_combinators) else None
                 if comb is not None:
                     self._expand_combinator(body, bb, t, st, out, depth, comb, name, fn, args, uid)
@@ -570,7 +578,7 @@ class Sym:
             self._finish(st, "other:" + k, None, out)
             return
 
-    def _inline_call(self, body, t, st, out, depth, callee_body, cargs, ev, uid, wrap=None):
+    def _inline_call(self, body, t, st, out, depth, callee_body, cargs, ev, uid, wrap=None, cont=None):
         """virtual inlining: run the callee's paths in place; `ev` (extra="inlined") is the event of the call and ends up carrying
         the value each callee path returned; the caller continues with wrap(ret) in the destination"""
         sub_out = []
@@ -603,8 +611,50 @@ class Sym:
             s2.blocks = list(p.blocks)
             for a_ in t["args"]:
                 self.havoc_arg(s2, a_, uid, looked_through=True)
+            if cont is not None:
+                cont(s2, ret)
+                continue
             self.assign(s2, t["dest"], ret)
             self._walk(body, t["t"], s2, out, depth)
+
+    # Internal iteration with a closure literal: `it.for_each(|x| ..)` and `it.fold(init, |acc, x| ..)` are read as the `for` loop
+    # they abbreviate - `next()` decided Some, the closure body run in place on the item, up to the same number of rounds a `for`
+    # loop is unrolled - so that rules which follow a loop see the same events in either spelling.
+    INTERNAL_ITERATION = ("for_each", "fold")
+
+    def _iterate(self, body, bb, t, st, out, depth, kind, itv, acc, cal, name, fn, args, uid, n):
+        fnpath = body.path
+        nxname = "<%s as std::iter::Iterator>::next" % ((fn.get("args") or ["?"])[0])
+
+        def step(s_, some):
+            self.uid += 1
+            nx = ("call", nxname, (("ref", itv),), self.uid)
+            s_.events.append(Event("call", bb, fnpath, name=nxname, fn=None, args=(("ref", itv),), result=nx, term=None,
+                                   vers=(0,), ncond=len(s_.conds)))
+            s_.conds.append((("discr", nx, None), ("eq", 1 if some else 0), bb, fnpath))
+            return nx
+        # the iterator is exhausted: the call returns (the accumulator / unit)
+        s_exit = st.clone()
+        step(s_exit, False)
+        if t["t"] is None:
+            self._finish(s_exit, "diverge", None, out)
+        else:
+            self.assign(s_exit, t["dest"], acc if kind == "fold" else ("agg", "tuple", None, None, ()))
+            self._walk(body, t["t"], s_exit, out, depth)
+        if n >= max(1, self.max_visits - 1):
+            s_cut = st.clone()
+            self._finish(s_cut, "cut", None, out)
+            out[-1].cut_at = (fnpath, bb)
+            return
+        s_it = st.clone()
+        nx = step(s_it, True)
+        item = ("field", ("downcast", nx, "Some"), "0", None)
+        params = [cal[2]] + ([acc, item] if kind == "fold" else [item])
+        ev = Event("call", bb, fnpath, name=name, fn=fn, args=args, result=None, term=t, extra="inlined",
+                   vers=tuple(s_it.ver.get(a, 0) for a in args), ncond=len(s_it.conds))
+        self._inline_call(body, t, s_it, out, depth, cal[1], params, ev, uid,
+                          cont=lambda s2, ret: self._iterate(body, bb, t, s2, out, depth, kind, itv, ret if kind == "fold" else acc,
+                                                             cal, name, fn, args, uid, n + 1))
 
     # Option / Result combinators that *decide* something by calling a closure: `opt.map_or(false, |x| ..)`, `is_some_and`, ...
     # They are read as the match they abbreviate, so that their outcome is the same fact as a later `match` on the subject.
